@@ -103,9 +103,11 @@ def prepare(request=None, registry=None):
     ctx.begin()
 
     def closer():
-        if request.finished_callbacks:
-            request._process_finished_callbacks()
-        ctx.end()
+        try:
+            if request.finished_callbacks:
+                request._process_finished_callbacks()
+        finally:
+            ctx.end()
 
     try:
         apply_request_extensions(request)
